@@ -612,7 +612,19 @@ int main(int argc, char **argv){
                 // deliver samples for the listed multi-indexes in one call (epoch for token values)
                 int epoch, n; ls >> epoch >> n; int d = g.getNumDimensions();
                 std::vector<int> idx((size_t) n * d); for(auto &e : idx) ls >> e;
+                {   // a sample for a point that is already loaded is outside the contract (duplicate delivery): not delivered
+                    std::set<std::vector<int>> have;
+                    const int *li = g.verifLoadedIndexes(); int nl0 = (g.getNumOutputs() > 0) ? g.getNumLoaded() : g.getNumPoints();
+                    for(int i=0; li != nullptr && i<nl0; i++) have.insert(std::vector<int>(li + (size_t) i * d, li + (size_t) (i + 1) * d));
+                    std::vector<int> kept;
+                    for(int i=0; i<n; i++){
+                        std::vector<int> q(idx.begin() + (size_t) i * d, idx.begin() + (size_t) (i + 1) * d);
+                        if (have.count(q) == 0){ kept.insert(kept.end(), q.begin(), q.end()); have.insert(q); }
+                    }
+                    idx = kept; n = (int) (idx.size() / (size_t) std::max(d, 1));
+                }
                 A("epoch", jint(epoch)); A("p", jistrips(idx.data(), n, d));
+                if (n == 0) throw std::string("skipped");
                 auto x = indexesToCoords(g, idx);
                 auto y = tokens_for(g, idx.data(), n, epoch);
                 g.loadConstructedPoints(x, y);
